@@ -468,7 +468,9 @@ def b_box(case, ctx):
     elif not in_generated_domain(ps):
         ctx.note(cls="box:skipped_not_spanning")
         return
-    sigbase = f"C16.box|{src}" + ("|planar3" if planar3 else "")
+    # fewer than 4 distinct points: ConvexHull raises even with 'QJ', the only inputs that reach
+    # bounds.oriented_bounds_coplanar (its own code path, hence its own signature class)
+    sigbase = f"C16.box|{src}" + ("|planar3" if planar3 else "") + ("|n<4" if len(ps.U) < 4 else "")
     # exactly coplanar input: ConvexHull('QbB Pp Qt') raises and convex.convex_hull documents its retry with 'QJ'
     # (joggled input). qhull's default joggle is qh_JOGGLEdefault = 30000 * DISTround with
     # DISTround <= eps*(3*1.01*maxsumabs + maxabs) <= 10*eps*M per coordinate, so the choice of extreme points can be
